@@ -72,6 +72,10 @@
                                           (same scheme for any number of generators / conditions;
                                            a list comprehension is the same without py_set_of)
        s | t               (sets)    |-> py_union eqb s t
+       s & t               (sets)    |-> py_inter eqb s t
+       s - t               (sets)    |-> py_diff eqb s t
+       logger.debug/info/warning/error/critical(<side-effect free arguments>)   |-> (nothing)
+       x: T = e  (annotated assignment) |-> as x = e (the annotation is ignored)
        l.append(x)                   |-> l := py_list_append l x
        x in s , x not in s           |-> memb eqb x s , negb (memb eqb x s)
        len(xs)                       |-> length xs
